@@ -1,10 +1,10 @@
 package main
 
 import (
-	"strings"
 	"encoding/json"
 	"fmt"
 	"sort"
+	"strings"
 
 	"verifharness/abs"
 	"verifharness/chk"
@@ -227,7 +227,9 @@ func checkC15(c *chk.Ctx) {
 	c.Done()
 }
 
-func contains(s, sub string) bool { return len(sub) > 0 && len(s) >= len(sub) && (stringsIndex(s, sub) >= 0) }
+func contains(s, sub string) bool {
+	return len(sub) > 0 && len(s) >= len(sub) && (stringsIndex(s, sub) >= 0)
+}
 
 // observeDevs finds out which open deviations were actually needed by this run: the trace is
 // re-validated with each one switched off; a rejection means the finding was re-observed.
